@@ -16,7 +16,7 @@ for a, b, c in itertools.product([False, True], repeat=3):   # same order as all
     VARIANTS.append({"name": "endctx=%s,verify=%s,panic=%s" % (("fixed" if a else "current"), ("fixed" if b else "current"),
                                                               ("fixed" if c else "current")),
                      "findings": [f for f, fixed in zip(FIX, (a, b, c)) if not fixed]})
-RULE = ("configuration cases = source {dataset, sample, slow} x transform {none, js, js with parallelism 10 on a page of 15} x sink "
+RULE = ("configuration cases = source {dataset, sample, slow} x transform {none, js, js whose transform stage panics (injected by the harness)} x sink "
         "{devnull, dataset, dataset that does not exist} x trigger {cron, onchange} x job type x handler set {none, log, rerun, "
         "log+rerun, unknown type, 'Log'} (+ kill for the slow source): the whole lattice (thorough, 864 configurations) or the "
         "witnesses plus a PRNG sample of 70 (quick), each through Scheduler.AddJob and the real trigger path in its own process; "
@@ -38,12 +38,12 @@ ASSUMPTIONS = [
 EXHAUSTIVE = {"thorough": True}
 
 SRC = ["dataset", "sample", "slow"]
-TR = ["none", "js", "jspar"]
+TR = ["none", "js", "panic"]
 SNK = ["devnull", "dataset", "missing"]
 TRIG = ["cron", "onchange"]
 JT = ["incremental", "fullsync"]
 HS = ["none", "log", "rerun", "logrerun", "bad", "Log"]
-COQ = {"dataset": "SDataset", "sample": "SSample", "slow": "SSlow", "none": "TNone", "js": "TJs", "jspar": "TJsPar",
+COQ = {"dataset": "SDataset", "sample": "SSample", "slow": "SSlow", "none": "TNone", "js": "TJs", "panic": "TPanic",
        "devnull": "KDevNull", "missing": "KMissing", "cron": "GCron", "onchange": "GOnChange", "incremental": "JIncr",
        "fullsync": "JFull"}
 COQ_SNK = {"devnull": "KDevNull", "dataset": "KDataset", "missing": "KMissing"}
@@ -75,8 +75,9 @@ def witness_cases():
         cfg(trigger="onchange", handlers="log", sink="missing"),               # F11b nil handler
         cfg(trigger="onchange", handlers="bad"),                               # F11b unverified handler accepted
         cfg(handlers="bad"),
-        cfg(transform="jspar"),                                                # F11c panic under cron
-        cfg(transform="jspar", trigger="onchange"),
+        cfg(transform="panic"),                                                # F11c panic under cron
+        cfg(transform="panic", trigger="onchange"),
+        cfg(transform="panic", jobType="fullsync"),
         cfg(sink="missing"), cfg(sink="missing", handlers="log"), cfg(source="slow", kill=True),
         cfg(trigger="onchange", handlers="Log", sink="missing"),
         raffle(1, 2, [(0, False), (0, True), (1, False), (2, False), (3, True), (3, True)], 8, 40),
@@ -168,7 +169,7 @@ def attribute(c, o):
         return "F11a"
     if "nil pointer" in d and c["trigger"] == "onchange" and has_log(c):
         return "F11b"
-    if "makeslice" in d and c["transform"] == "jspar" and c["jobType"] == "incremental":
+    if "injected panic" in d and c["transform"] == "panic":
         return "F11c"
     return None
 
